@@ -578,3 +578,64 @@ Check SrcTie2Events.EV_comp_seek_shape.
 Theorem C08_tie_EV_comp_seek_shape : ltac:(let t := type of SrcTie2Events.EV_comp_seek_shape in exact t).
 Proof. exact SrcTie2Events.EV_comp_seek_shape. Qed.
 Print Assumptions C08_tie_EV_comp_seek_shape.
+(* ====================================================================================
+   The archive HEADER (work package hdrsrc): ArchiveHeader::from as the code's reads
+   (HeaderStream.read_header_s), over ANY bytes — hostile, truncated at every point — through
+   any source refining a cursor over them (memory, short reads on any schedule).
+   ==================================================================================== *)
+From MLA Require Import Format Archive HeaderStream HeaderStreamProofs.
+
+(* ends in Ok or one of four errors: never a Crash site, never out of the model's fuel (the
+   loop over the attacker-chosen key count is bounded by the bincode limit: 48 bytes are charged
+   per entry before they are read); at most 7 + LIMIT bytes are consumed, never more than
+   there are; an accepted header is within the limit, its key table (the only allocation sized
+   by the input: one 48-byte element per entry read, after Vec::with_capacity(min(count,
+   1 MiB / 48))) holds at most LIMIT bytes; the outcome is Archive.read_header's on the bytes *)
+Theorem C08_header_total :
+  forall (LIMIT : N) (S : Stream) (b : bytes) (R : st S -> N -> Prop) (s0 : st S),
+  Refines S b R -> R s0 0 ->
+  exists s' r p', read_header_s S LIMIT s0 = (s', r) /\ R s' p' /\ p' <= len b /\ p' <= 7 + LIMIT /\
+    match r with
+    | Ok h => p' = 7 + config_size h /\ config_size h <= LIMIT /\
+              (forall eh, h_enc h = Some eh -> 48 * len (eh_keys eh) <= LIMIT) /\
+              read_header LIMIT b = Ok (h, dropN p' b)
+    | Err e => (e = EUnexpectedEof \/ e = EMagic \/ e = EVersion \/ e = EDeser) /\ read_header LIMIT b = Err e
+    | Crash _ => False
+    end.
+Proof. exact header_total. Qed.
+
+Theorem C08_header_prealloc_bounded : forall count, keys_prealloc count <= 1048576.
+Proof. intros count. unfold keys_prealloc. change (1048576 / 48) with 21845. lia. Qed.
+
+(* non-vacuity: a header announcing 2^63 + 5 wrapped keys followed by 100 bytes, limit 1000,
+   read 3 bytes at a time: DeserializationError after 2 entries (the third runs out of input),
+   149 bytes consumed; with limit 100 the size limit stops it after 107 *)
+Definition hostile_hdr : bytes :=
+  [77; 76; 65; 1; 0; 0; 0; 1; 1] ++ repeat 7 32 ++ [5; 0; 0; 0; 0; 0; 0; 128] ++ repeat 9 100.
+Example C08_header_hostile :
+  len hostile_hdr = 149 /\
+  read_header_s (Throttled hostile_hdr) 1000 (0, [3]) = ((149, [3]), Err EDeser) /\
+  read_header_s (Throttled hostile_hdr) 100 (0, [3]) = ((107, [3]), Err EDeser) /\
+  read_header_s (Cursor (takeN 5 hostile_hdr)) 1000 0 = (5, Err EUnexpectedEof) /\
+  (exists s' r p', read_header_s (Throttled hostile_hdr) 1000 (0, [3]) = (s', r) /\ p' <= 149 /\
+                   match r with Crash _ => False | _ => True end).
+Proof.
+  split; [reflexivity|]. split; [vm_compute; reflexivity|]. split; [vm_compute; reflexivity|].
+  split; [vm_compute; reflexivity|].
+  destruct (C08_header_total 1000 (Throttled hostile_hdr) hostile_hdr _ (0, [3]) (throttled_refines _)
+              ltac:(split; [reflexivity | vm_compute; discriminate])) as (s' & r & p' & Hr & _ & Hp & _ & Hm).
+  exists s', r, p'. split; [exact Hr|]. split; [exact Hp|]. destruct r; [exact I | exact I | exact Hm].
+Qed.
+
+Print Assumptions C08_header_total.
+Print Assumptions C08_header_prealloc_bounded.
+Print Assumptions C08_header_hostile.
+
+(* Tie A: the order of the source reads of ArchiveHeader::from / writes of dump, from /repo *)
+From MLA Require SrcTieHeader.
+Theorem C08_tie_header_calls :
+  Src.HEADER_FROM_CALLS = SrcTieHeader.from_calls_model /\
+  Src.HEADER_FROM_SRC_USES = 3 /\
+  Src.HEADER_DUMP_CALLS = SrcTieHeader.dump_calls_model.
+Proof. exact SrcTieHeader.header_from_calls. Qed.
+Print Assumptions C08_tie_header_calls.
